@@ -3,7 +3,7 @@
    AppendFile (src/cleditor/STEPfile.cc) and p21read's exit status
    (src/test/p21read/p21read.cc), as a fold over per-instance outcomes.
    No proofs here (extracted for the correspondence check). *)
-From Coq Require Import List ZArith Bool.
+From Coq Require Import List ZArith Bool NArith.
 From SC.gen Require Import SevTable.
 Import ListNotations.
 Local Open Scope Z_scope.
@@ -88,6 +88,19 @@ Definition part_counts (p : part) : bool :=
   (fst p <? SEVERITY_NULL) && negb ((fst p =? SEVERITY_WARNING) && only_derived_values_given (snd p)).
 
 (* the severity STEPcomplex::STEPread returns: own = what the record syntax itself gave *)
+(* the parts in the order they stand in the record, each under the number of its entity: a part that is met a second
+   time adds a WARNING to what the parts reported (its values replace those read before) *)
+Fixpoint has_dup (l : list N) : bool :=
+  match l with
+  | [] => false
+  | x :: r => existsb (N.eqb x) r || has_dup r
+  end.
+
+Definition complex_sev_named (own : Z) (named : list (N * part)) : Z :=
+  let pe0 := fold_left (fun acc p => if part_counts p then greater acc (fst p) else acc) (map snd named) SEVERITY_NULL in
+  let pe := if has_dup (map fst named) then greater pe0 SEVERITY_WARNING else pe0 in
+  if pe <? SEVERITY_NULL then greater own pe else own.
+
 Definition complex_sev (own : Z) (parts : list part) : Z :=
   let pe := fold_left (fun acc p => if part_counts p then greater acc (fst p) else acc) parts SEVERITY_NULL in
   if pe <? SEVERITY_NULL then greater own pe else own.
